@@ -212,7 +212,9 @@ def wrapper_census(tree: ast.Module) -> list[tuple[str, str, str]]:
 
 IMMUTABLE_MAKERS = {'TypeVar', 'typing.TypeVar', 'typing_extensions.TypeVar', 'NewType', 'typing.NewType', 'frozenset', 'tuple',
                     're.compile', 'struct.Struct', 'object', 'int', 'str', 'float', 'bool', 'bytes', 'ParamSpec',
-                    'typing.ParamSpec', 'typing_extensions.ParamSpec', 'Literal'}
+                    'typing.ParamSpec', 'typing_extensions.ParamSpec', 'Literal',
+                    # loggers carry no answers from one file system to another
+                    'logging.getLogger', 'get_logger', 'logger.get_logger', 'srctools.logger.get_logger'}
 
 
 def _immutable_value(v: ast.AST | None) -> bool:
